@@ -53,6 +53,10 @@ checks = {
    technique="exhaustive enumeration of (operator, argument, input) triples over tiny adversarial alphabets for every covered built-in operator, evaluated through the real operator factory on a real transaction (and a subset through real rules for negation and TX.0-9), against direct executable definitions (naive substring search with ASCII folding, strconv, net/netip, byte tables, RFC 3629 table, Go regexp)",
    text="For the string, numeric, @pm family, @ipMatch, @validateByteRange, @validateUrlEncoding, @validateUtf8Encoding and @rx operators every argument and input up to the stated lengths is decided and compared with the documented predicate; `!` must be the exact complement; capturing operators must store the matched texts in TX.0-9.",
    note="Trusted: the executable definitions in go/c15 and the Go standard library. Not covered: @detectSQLi/@detectXSS/@rbl/@geoLookup/@inspectFile/@restpath/@validateNid/@validateSchema; readings the documentation leaves open are executed but not asserted (skipped_unspecified). One open known finding in the rsc.io/binaryregexp dependency (captures only)."),
+ "C17": dict(level="exploration", design="§3 C17", engine="differential enumeration",
+   technique="exhaustive enumeration of exclusion/update directives (configuration-time and run-time ctl forms, single id / list / range / tag / msg, exclusion and addition targets, string and regex keys, action updates, three ctl placements) over a base rule set x all requests of a 27-element family, executed on the real engine; differential oracle against the explicitly rewritten configuration, plus a second transaction on the same WAF for ctl forms",
+   text="For each directive of the family and each request the outcome (interruption, fired rules, match data, messages, TX marker) must equal that of the configuration rewritten by hand in structured form; a ctl executed in one transaction must not affect the next transaction on the same WAF.",
+   note="Trusted: the structured rewrite rules in go/c17 as the restatement of 'behaves like the rule written with those targets/actions'. Bounded: 5 base rules (one chain, one marker), 3 argument names, 2 values."),
 }
 not_applicable = {}
 
